@@ -209,8 +209,9 @@ def run(ctx):
         "cases_by_family": fam, "engines_built": orders, "lookups_run": lookups_total,
         "first_order_lookups_with_a_handler": hits, "refused_registrations": panics,
         "rule": "TLC (RouterGen) enumerates route sets over the pattern universe of the cfg (segments lit/:p/lit:p, depth "
-                "<= 2, plain / trailing slash / catch-all tails): every single pattern, every pair, %s, GET+POST pairs, "
-                "invalid patterns, seeded larger sets (4..7 routes, depth <= 3) and UseRawPath sets; every set with all "
+                "<= 2, plain / trailing slash / catch-all tails): every single pattern, every pattern next to its renamed twin "
+                "(must be refused), every pair, %s, GET+POST pairs, invalid patterns, seeded larger sets (4..7/8 routes, "
+                "depth <= 3) and UseRawPath sets; every second route of a set uses other parameter names; every set with all "
                 "registration orders (6 seeded orders above 4 routes) and lookups = every pattern instantiated with "
                 "all parameter values of the cfg plus extra-slash / missing-slash / extra-segment neighbours. "
                 "evaluations = recorded events (Register + Lookup + framing) validated by TLC. distinct_nontrivial = "
